@@ -365,7 +365,9 @@ func addErrorForms(rt *rapid.T, env *progen.Env, p *progen.Prog, used progen.Use
 			}
 			ps = append(ps, progen.Param{Name: names[i], Type: pt})
 		}
-		outs := rlist(0, 2)
+		// any number of results besides the bool (generators that build their lists by appending behave
+		// differently at 3, 5, 6 and 7 elements than at 0, 1, 2, 4 and 8)
+		outs := rlist(0, 7)
 		fsig := &progen.Sig{Params: ps, Results: append(append([]*progen.Type{}, outs...), progen.B("bool"))}
 		if !used.Claim("toerror|" + fsig.TypeKey()) {
 			return
